@@ -29,7 +29,7 @@ ASSUMPTIONS = [
     "evaluator and truncated-factorisation truth as in C01",
 ]
 BUDGET = {
-    "quick": dict(examples=90, shards=16, seconds=200),
+    "quick": dict(examples=250, shards=16, seconds=200),
     "thorough": dict(examples=1500, shards=16, seconds=2400),
 }
 ESSENTIAL_LABELS = {t: ["answered", "exchange", "no-exchange", "empty-X", "rule2-with-bidirected"] for t in ("quick", "thorough")}
